@@ -526,15 +526,22 @@ for _p in ('C13', 'C15', 'C04', 'C01'):
     PROPS[_p]['verus'] = PROPS[_p].get('verus', []) + ['c13_text_helpers']
 for _p in ('C12', 'C05', 'C01', 'C04'):
     PROPS[_p]['verus'] = PROPS[_p].get('verus', []) + ['dep_container_decoders']
-PROPS['C13']['assumptions'] = ['A4', 'A8', 'A12', 'AV', 'AK', 'AS', 'AX']
-PROPS['C13']['explanation'] = ('Two layers. (1) Verus, texts of ANY length and every capacity L: deserialize_from_str_and_skip_if_too_long keeps a text '
-    'of at most L bytes verbatim and reports a longer one absent, never an error; deserialize_from_str_and_truncate maps absent to absent and a present '
-    'text to the result of truncate (contract: the longest prefix of at most L bytes ending on a character boundary; a text that fits is unchanged - lemma '
-    'ob_C13_fitting_text_unchanged); the heapless String::{new, push_str, from_str} code under them is extracted from the pinned dependency and verified '
-    'against the Vec::extend_from_slice contract. (2) Kani, bounded in the text length: the body of truncate against the function contract of '
-    'floor_char_boundary (result == longest boundary prefix, no UB at unwrap_unchecked), that contract against the real body for all valid UTF-8 strings '
-    'up to 5 (thorough: 8) bytes and, under the window precondition, up to 300 bytes, every index; the real truncate::<64> and the icon helpers on texts '
-    'up to 300 bytes (ASCII and multi-byte). Level stays model_checking because the contract of truncate is discharged only for bounded lengths. '
+PROPS['C13']['assumptions'] = ['A4', 'A8', 'A12', 'AU', 'AV', 'AK', 'AS', 'AX']
+PROPS['C13']['level'] = 'proof'
+ASSUMPTIONS['AU'] = ('AU two facts about UTF-8 itself, assumed as axioms in unit c13_text_helpers: the bytes of a `&str` never contain four consecutive '
+    'continuation bytes (10xxxxxx), and the first byte of a non-empty `&str` is not a continuation byte (validated on bounded strings by the Kani '
+    'harnesses c13_k_floor_char_boundary_*, which build their strings with core::str::from_utf8); plus the trusted wrappers slice_rposition__ '
+    '(core Iterator::rposition on a slice), str_prefix__ (core `&s[..k]`, precondition = its panic condition) and the assume_specification of '
+    'Option::unwrap_unchecked (precondition `is Some`)')
+PROPS['C13']['explanation'] = ('Verus, texts of ANY length and every capacity L / index: the REAL bodies of truncate, floor_char_boundary and is_utf8_char_boundary '
+    '(cut from src/webauthn.rs on every run; rewrites: s.len() -> s.as_bytes().len(), X.iter().rposition(|b| P) -> slice_rposition__(&X, pred__), &s[..k] -> '
+    'str_prefix__(s, k)) are proved against the property\'s own contract: the result is the longest prefix of at most L bytes that ends on a character '
+    'boundary (a text that fits is unchanged - lemma ob_C13_fitting_text_unchanged); the unsafe unwrap_unchecked (needs Some), the slicing &s[..split] (needs a '
+    'character boundary) and push_str(..).unwrap() (needs <= L bytes) are discharged as obligations, under the two UTF-8 axioms AU. '
+    'deserialize_from_str_and_skip_if_too_long keeps a text of at most L bytes verbatim and reports a longer one absent, never an error; '
+    'deserialize_from_str_and_truncate maps absent to absent and a present text to truncate(text); the heapless String::{new, push_str, from_str} code under '
+    'them is extracted from the pinned dependency and verified against the Vec::extend_from_slice contract. Kani (bounded in the text length, labelled so) '
+    're-checks floor_char_boundary / truncate / the helpers on the real monomorphised code and supplies counterexamples and the validation of AU. '
     'Rejection of ill-formed UTF-8 is the decoder\'s from_utf8 (A8).')
 ASSUMPTIONS['A4'] = ('A4 heapless 0.7 / heapless-bytes 0.3 container decoders accept <= N, reject > N and copy verbatim - PROVED by Verus on the pinned '
     'dependency sources for inputs of any length (unit dep_container_decoders: Vec<T, N>::visit_seq, Bytes<N>::visit_bytes, String<N>::visit_str, '
